@@ -109,3 +109,49 @@ pub fn c19(rep: &mut Report, n: u32, seed: u64) {
         Err(msg) => viol(rep, "bound", format!("closure/try_compile panicked on a.b^{}: {}", n, msg), seed, n),
     }
 }
+
+/// C01 at scale: loop bounds around 2^16, on a manager that already holds more than 2^17 terms
+pub fn c01(rep: &mut Report, seed: u64) {
+    use aws_smt_strings::loop_ranges::LoopRange;
+    use aws_smt_strings::smt_strings::SmtString;
+    let mut m = ReManager::new();
+    super::rectx::bulk_preload(&mut m, 70_000);
+    rep.inc("scale_probes");
+    let a = m.char('a' as u32);
+    let ab = m.range('a' as u32, 'b' as u32);
+    let (lo, hi) = (65_535u32, 65_537u32);
+    let l1 = m.smt_loop(a, lo, hi);
+    let l2 = m.mk_loop(ab, LoopRange::infinite(65_536));
+    let l3 = m.exp(a, 65_536);
+    let cat = m.concat(l3, a); // a^65537
+    let r = guard(|| {
+        let mut bad: Vec<String> = Vec::new();
+        for k in [lo - 1, lo, lo + 1, hi, hi + 1] {
+            let w = SmtString::from(vec!['a' as u32; k as usize]);
+            let want1 = lo <= k && k <= hi;
+            if m.str_in_re(&w, l1) != want1 {
+                bad.push(format!("a^{} in a^[{},{}] answered {}", k, lo, hi, !want1));
+            }
+            let want2 = k >= 65_536;
+            if m.str_in_re(&w, l2) != want2 {
+                bad.push(format!("a^{} in [a-b]^[65536,inf) answered {}", k, !want2));
+            }
+            let want3 = k == 65_537;
+            if m.str_in_re(&w, cat) != want3 {
+                bad.push(format!("a^{} in a^65536 . a answered {}", k, !want3));
+            }
+        }
+        if l1.nullable || l2.nullable || cat.nullable {
+            bad.push("a loop with a positive lower bound over a non-nullable body is nullable".to_string());
+        }
+        bad
+    });
+    match r {
+        Ok(bad) => {
+            if !bad.is_empty() {
+                viol(rep, "member", format!("large loop bounds on a manager with 140 000 terms: {}", bad.join("; ")), seed, 65_536);
+            }
+        }
+        Err(msg) => viol(rep, "member", format!("membership with loop bounds around 2^16 panicked: {}", msg), seed, 65_536),
+    }
+}
